@@ -148,14 +148,14 @@ func fits(v int64, bits uint) bool {
 func (g *Gen) lzfOps() (string, []byte) {
 	var out []byte
 	var ops []string
-	if g.R.Chance(1, 12) {
-		// a long, repetitive value (9-16 KiB) whose back references reach 2048..8192 bytes back
+	if g.R.Chance(1, 50) {
+		// a long, repetitive value (9-12 KiB) whose back references reach 2048..8192 bytes back
 		for i := 0; i < 3; i++ {
 			lit := g.R.Bytes(32)
 			out = append(out, lit...)
 			ops = append(ops, "l"+hx(lit))
 		}
-		for len(out) < 9000+g.R.Intn(7000) {
+		for len(out) < 9000+g.R.Intn(3000) {
 			maxd := vfutil.Min(len(out), 8192)
 			dist := 1 + g.R.Intn(maxd)
 			if maxd > 2048 && g.R.Chance(3, 4) {
